@@ -27,7 +27,7 @@ KINDS = ["sync", "gthread", "gevent", "eventlet"]
 
 
 def cells():
-    for kind, bind, hist in itertools.product(KINDS, ["tcp", "unix"], range(8)):
+    for kind, bind, hist in itertools.product(KINDS, ["tcp", "unix"], range(10)):
         h = [
             {"pre": [], "workers": [2]},
             {"pre": [], "workers": [3, 1]},
@@ -37,6 +37,8 @@ def cells():
             {"pre": [], "workers": [1]},
             {"pre": ["TTIN"], "workers": [3]},
             {"pre": [], "workers": [2, 3, 2]},
+            {"pre": [], "workers": [3, None]},           # None: the settings are removed from the file -> built-in defaults again
+            {"pre": ["TTIN"], "workers": [None]},
         ][hist]
         yield {"kind": kind, "bind": bind, "start_workers": 2, "pre": h["pre"], "workers": h["workers"], "hist": hist}
 
@@ -58,7 +60,7 @@ def extra_cases(tier, seed, shard, nshards):
             yield dict(c, gap=round(0.2 + 0.8 * j, 2))
 
 
-EXHAUSTIVE_NOTE = "thorough: all 64 cells (4 classes x 2 binds x 8 histories); quick: a seeded slice of up to 32 covering every class x bind and every history"
+EXHAUSTIVE_NOTE = "thorough: all 64 cells (4 classes x 2 binds x 10 histories); quick: a seeded slice of up to 32 covering every class x bind and every history"
 
 
 class Load(threading.Thread):
@@ -129,7 +131,10 @@ def run_case(case):
         old_pids = set()
         for i, n in enumerate(case["workers"]):
             old_pids |= set(srv.workers())
-            srv.write_conf(["workers = %d" % n, "raw_env = ['VERIF_MARKER=m%d']" % (i + 1)])
+            if n is None:
+                srv.write_conf(["# nothing configured any more"])
+            else:
+                srv.write_conf(["workers = %d" % n, "raw_env = ['VERIF_MARKER=m%d']" % (i + 1)])
             t_last_hup = time.time()
             srv.signal(signal.SIGHUP)
             time.sleep(case["gap"])
@@ -163,14 +168,14 @@ def run_case(case):
             V("never-cut", "response-cut-during-reload:" + kind, {"first": tr[0][2], "count": len(tr), "of": len(res)}, "complete responses")
         if em and kind == "sync":
             V("sync-answers-every-accepted", "accepted-connection-unanswered:sync", {"count": len(em), "of": len(res)}, "every connection answered")
-        want = case["workers"][-1]
+        want = case["workers"][-1] if case["workers"][-1] is not None else 1
         if len(final) != want:
             V("new-pool-size", "pool-size-after-reload-%d-expected-%d" % (len(final), want), {"children": final, "old": sorted(old_pids)}, want)
         stale = sorted(set(final) & old_pids)
         if stale:
             V("only-new-workers", "pre-reload-worker-survives", {"stale": stale, "children": final}, "only workers started after the last HUP")
         if not vio:
-            marker = "marker=m%d " % len(case["workers"])
+            marker = ("marker=m%d " % len(case["workers"])) if case["workers"][-1] is not None else "marker=- "
             bad = []
             for _ in range(8):
                 r2, d2, e2 = srv.request("/pid", timeout=5)
